@@ -167,6 +167,13 @@ async fn vx_bounded_log_single_file() {
             }
         }
     }
+    // ---- exactly k x 128 records at a reopen (the last index entry points at the end of the log: the end-of-log scan passes no record)
+    for k in [128usize, 256] {
+        let exact: Vec<usize> = (0..k).map(|i| 3 + i % 5).collect();
+        history(&format!("profile=exact{} start=1 cut_back=0 again=tiny", k), 1, &exact, 0, &[1, 2, 3], &mut bad).await;
+        history(&format!("profile=exact{} start=1000 cut_back=1 again=one", k), 1000, &exact, 1, &[9], &mut bad).await;   // truncated to k-1, one re-append: k again
+        n += 2;
+    }
     // ---- entries larger than the preallocation step (1 MiB): the file grows by the entry, later appends must not cut it
     //      (more than the room that is left + two steps, so that the file is longer than the next TWO growth steps assume)
     let huge: Vec<usize> = vec![64, 3_300_000, 64, 300];
@@ -183,7 +190,7 @@ async fn vx_bounded_log_single_file() {
     }
     boundary_history("boundary lead=5 big=250000", 5, 250000, -5000, &mut bad).await;
     n += 1;
-    assert!(n >= 70, "only {} histories", n);
+    assert!(n >= 74, "only {} histories", n);
     bad.sort(); bad.dedup();
     println!("VX-BOUNDED single-file histories: {} in {:?}", n, t0.elapsed());
     assert!(bad.is_empty(), "{} failing probe(s):\n{}", bad.len(), bad.join("\n"));
